@@ -75,7 +75,7 @@ def geomNoise (scale u : α) : Int :=
   if v < 0 then -(Transc.floor (Transc.log (-v) / scale)) else Transc.floor (Transc.log v / scale)
 
 /-- `Geometric.randomise(value)`.  For `sensitivity = 0` the code sets `_scale = -inf`, for which every uniform other
-than exactly ½ gives `exp(scale) = 0`, `log|v| / -inf = +0.0`, noise 0 (u = ½ is C12's degenerate point); the model
+than exactly ½ gives `exp(scale) = 0`, `log|v| / -inf = +0.0`, noise 0 (u = ½ is redrawn, see `geomDraw`); the model
 returns the value unchanged in that branch. -/
 def geomRandomise (eps : α) (sens : Nat) (value : Int) (u : α) : Int :=
   if 0 < sens then value + geomNoise (-eps / (sens : α)) u else value
@@ -320,7 +320,8 @@ def catComplete (ut : List ((Nat × Nat) × α)) (domain : List Nat) : Bool :=
   domain.all (fun a => domain.all (fun b => if a < b then (dictGet (a, b) ut).isSome else true))
 
 /-- the constructor: build, check completeness, first pass of `_build_normalising_constant` with factor 2, the
-`np.isclose`-based balanced flag (every constant against the first), second pass with factor 1 if balanced -/
+balanced flag (`np.isclose(z, z_first, rtol=1e-12, atol=0)` for every constant — equality up to summation order; the
+tolerances are supplied by the caller), second pass with factor 1 if balanced -/
 def catBuild (rtol atol eps : α) (ul : List (Nat × Nat × α)) : Except DErr (Cat α) :=
   match catBuildUtility ul [] 0 [] with
   | .error e => .error e
